@@ -231,9 +231,27 @@ func runCase(cs poolsim.Case) (coqOut string, failOut *failure, stOut stats, rOu
 	// the pool as last read (the reference for "first pool operation after a tip change")
 	var prev1 []types.Transaction
 	var prev2 []types.V2Transaction
+	prevTip := w.Info(r.Tip).Index
+	nsub := 0
+	// a third of the histories read the pool from inside the reorg / pool-change notifications
+	if cs.Seed%3 == 0 {
+		r.Listen()
+		st["histories-with-listener-reads"]++
+	}
 	// firstOp: after a tip change during which no pool method was called, one read API is the first
 	// pool operation; its answer must agree with the listing read right after it
 	firstOp := func(g *rng.R, api string) {
+		switch api {
+		case "v2-list", "txset", "mine":
+			// (judged by the lists read right after, see poolsim.FirstRead)
+			bad := r.FirstRead(api, prev1, prev2, prevTip)
+			r.Quiet = false
+			st["first-op:"+api]++
+			if bad != "" {
+				report("c14-first-read-differs", bad)
+			}
+			return
+		}
 		cand1, cand2 := prev1, prev2
 		if lr := r.LastReverted(); lr != nil {
 			// transactions of the last reverted block may have re-entered the pool
@@ -374,7 +392,7 @@ func runCase(cs poolsim.Case) (coqOut string, failOut *failure, stOut stats, rOu
 	}
 	lookups := func(g *rng.R) {
 		v1, v2 := r.Pool()
-		prev1, prev2 = v1, v2
+		prev1, prev2, prevTip = v1, v2, w.Info(r.Tip).Index
 		in1, in2 := map[types.TransactionID]bool{}, map[types.TransactionID]bool{}
 		for _, x := range v1 {
 			in1[x.ID()] = true
@@ -391,11 +409,21 @@ func runCase(cs poolsim.Case) (coqOut string, failOut *failure, stOut stats, rOu
 		if len(rejected) > 0 {
 			cand = append(cand, rejected[g.Intn(len(rejected))])
 		}
+		// ids that are no transaction ids at all: the zero id, the tip's block id, an output id of a pooled transaction
+		special := []types.TransactionID{{}, types.TransactionID(r.CM.Tip().ID)}
+		if len(v2) > 0 && len(v2[0].SiacoinOutputs) > 0 {
+			special = append(special, types.TransactionID(v2[0].SiacoinOutputID(v2[0].ID(), 0)))
+		} else if len(v1) > 0 && len(v1[0].SiacoinOutputs) > 0 {
+			special = append(special, types.TransactionID(v1[0].SiacoinOutputID(0)))
+		}
+		sp := special[g.Intn(len(special))]
+		st["lookup:special-id"]++
 		// up to 5 ids per step, always some of each kind when available
 		for len(cand) > 5 {
 			i := g.Intn(len(cand))
 			cand = append(cand[:i], cand[i+1:]...)
 		}
+		cand = append(cand, sp)
 		for _, id := range cand {
 			kind := "unknown"
 			if in1[id] {
@@ -515,6 +543,75 @@ func runCase(cs poolsim.Case) (coqOut string, failOut *failure, stOut stats, rOu
 			}
 			requery("TransactionsForPartialBlock")
 		}
+		// extreme requests: nothing, nil, every hash three times among thousands of unknown ones
+		if fail == nil {
+			func() {
+				defer func() {
+					if p := recover(); p != nil {
+						report("c14-read-panic", fmt.Sprint("TransactionsForPartialBlock panicked on an empty / duplicated / huge request: ", p))
+					}
+				}()
+				for _, req := range [][]types.Hash256{nil, {}} {
+					g1, g2 := r.CM.TransactionsForPartialBlock(req)
+					st["partial-block-extreme:empty"]++
+					if len(g1)+len(g2) != 0 {
+						// whatever an empty request returns, it must not be the pool's own memory
+						for i := range g2 {
+							scribble(&g2[i])
+						}
+						for i, j := 0, len(g1)-1; i < j; i, j = i+1, j-1 {
+							g1[i], g1[j] = g1[j], g1[i]
+						}
+						for i, j := 0, len(g2)-1; i < j; i, j = i+1, j-1 {
+							g2[i], g2[j] = g2[j], g2[i]
+						}
+						requery("TransactionsForPartialBlock(<empty request>)")
+						if fail == nil {
+							report("c14-partial-block-wrong-transactions", fmt.Sprintf("TransactionsForPartialBlock(<no hashes>) returned %d+%d transactions", len(g1), len(g2)))
+						}
+						return
+					}
+				}
+				var big []types.Hash256
+				for k := 0; k < 3; k++ {
+					big = append(big, want...)
+					for j := 0; j < 2000; j++ {
+						var h types.Hash256
+						h[0], h[1], h[2], h[31] = byte(j), byte(j>>8), byte(k), 0xee
+						big = append(big, h)
+					}
+				}
+				g1, g2 := r.CM.TransactionsForPartialBlock(big)
+				st["partial-block-extreme:duplicates-among-unknown"]++
+				if len(g1) != len(a1) || len(g2) != len(a2) {
+					report("c14-partial-block-wrong-transactions", fmt.Sprintf("TransactionsForPartialBlock(<every pooled hash three times among 6000 unknown ones>) returned %d+%d transactions, the pool holds %d+%d", len(g1), len(g2), len(a1), len(a2)))
+				}
+			}()
+		}
+		// reads for transactions the pool has never seen: no inputs at all, a zero basis
+		if fail == nil {
+			func() {
+				defer func() {
+					if p := recover(); p != nil {
+						report("c14-read-panic", fmt.Sprint("UnconfirmedParents / V2TransactionSet panicked on an empty transaction or a zero basis: ", p))
+					}
+				}()
+				if ps := r.CM.UnconfirmedParents(types.Transaction{}); len(ps) != 0 {
+					report("c14-parents-not-pooled", "UnconfirmedParents(<empty transaction>) returned parents")
+				}
+				if _, set, err := r.CM.V2TransactionSet(r.CM.Tip(), types.V2Transaction{}); err == nil && len(set) != 1 {
+					report("c14-parents-not-pooled", "V2TransactionSet(<empty transaction>) returned parents")
+				}
+				r.CM.V2TransactionSet(types.ChainIndex{}, types.V2Transaction{})
+				var unk types.BlockID
+				unk[5] = 9
+				if _, _, err := r.CM.V2TransactionSet(types.ChainIndex{Height: 3, ID: unk}, types.V2Transaction{}); err == nil {
+					report("c14-verdict-wrong", "V2TransactionSet accepted a basis the manager has never seen")
+				}
+				st["reads-with-extreme-arguments"]++
+				requery("UnconfirmedParents / V2TransactionSet with an empty transaction")
+			}()
+		}
 		// V2TransactionSet / UnconfirmedParents for the last pooled transaction of each kind
 		if len(a2) > 0 && fail == nil {
 			if _, set, err := r.CM.V2TransactionSet(r.CM.Tip(), a2[len(a2)-1].DeepCopy()); err == nil {
@@ -615,15 +712,31 @@ func runCase(cs poolsim.Case) (coqOut string, failOut *failure, stOut stats, rOu
 		var known bool
 		var err error
 		var pan bool
+		// every fourth submission (accepted or rolled back) is followed by another reading call than the
+		// listing: the lookup of the members, the v2 list first, MineBlock, TransactionsForPartialBlock
+		fr := ""
+		if nsub++; nsub%4 == 3 {
+			fr = []string{"lookup-v2", "lookup-v1", "v2-list", "mine", "partial-block"}[(nsub/4)%5]
+			r.DeferNext = true
+		}
 		if s.V2 {
 			known, err, pan = r.Submit2(s.Basis, s.V2s, s.Metas)
 		} else {
 			known, err, pan = r.Submit1(s.V1, s.Metas)
 		}
+		r.DeferNext = false
 		st["submit:"+s.Flavor]++
 		if pan {
 			report("c14-submit-panic", fmt.Sprintf("submitting a %s set panicked", s.Flavor))
 			return
+		}
+		if fr != "" {
+			a1, a2 := append(append([]types.Transaction(nil), b1...), s.V1...), append(append([]types.V2Transaction(nil), b2...), s.V2s...)
+			st["first-op-after-submission:"+fr]++
+			if bad := r.FirstRead(fr, a1, a2, tipIdx); bad != "" {
+				report("c14-first-read-differs", fmt.Sprintf("after a %s submission (error: %v): %s", s.Flavor, err, bad))
+				return
+			}
 		}
 		verdict := 0
 		if err != nil {
@@ -744,7 +857,7 @@ func runCase(cs poolsim.Case) (coqOut string, failOut *failure, stOut stats, rOu
 		g := rng.New(stp.Seed ^ cs.Seed)
 		switch stp.Kind {
 		case "chain":
-			api := []string{"listing", "lookup", "partial-block", "parents", "lookup"}[g.Intn(5)]
+			api := []string{"listing", "lookup", "partial-block", "parents", "lookup", "v2-list", "txset", "mine"}[g.Intn(8)]
 			before := r.Tip
 			r.Quiet = api != "listing"
 			o := r.Chain(stp.Op)
@@ -757,7 +870,7 @@ func runCase(cs poolsim.Case) (coqOut string, failOut *failure, stOut stats, rOu
 			r.Quiet = false
 		case "mine":
 			if b, ok := r.MineOnly(); ok {
-				api := []string{"listing", "lookup", "partial-block", "parents", "lookup"}[g.Intn(5)]
+				api := []string{"listing", "lookup", "partial-block", "parents", "lookup", "v2-list", "txset", "mine"}[g.Intn(8)]
 				r.Quiet = api != "listing"
 				if r.Adopt(b) {
 					st["mined-blocks-adopted"]++
@@ -786,6 +899,9 @@ func runCase(cs poolsim.Case) (coqOut string, failOut *failure, stOut stats, rOu
 		if fail == nil && !sameSnap(h.snap, snapV2(h.txs)) {
 			report("c14-caller-memory-retained", fmt.Sprintf("transactions handed to AddV2PoolTransactions (%s set) changed after later pool updates: the pool kept their memory", h.what))
 		}
+	}
+	for k, v := range r.Stats {
+		st[k] += v
 	}
 	coq := ""
 	if r.NoCoq == "" && fail == nil {
